@@ -36,6 +36,9 @@ ExprFails(r) ==
 Fails(r) == CASE r.ev = "expr" -> ExprFails(r)
               [] r.ev = "treeconst" -> (IF r.eq => (r.hash_eq /\ r.found) THEN {} ELSE {"equal-trees-hash-differently"})
               [] r.ev = "deep" -> (IF r.ok THEN {} ELSE {"deep-recursion"})
+              \* a history with Context::clear: the nodes built afterwards are deduplicated among themselves and evaluate
+              \* to the values of the expressions they were asked to mean
+              [] r.ev = "clear" -> (IF r.panic = "" /\ r.distinct /\ r.values THEN {} ELSE {"after-clear"})
               [] OTHER -> {"unknown-event"}
 
 Init == l = 1
